@@ -17,5 +17,6 @@ CONSTANTS
   NilPacketSock = FALSE
   CloseWaits = FALSE
   ErrAware = TRUE
+  RecheckAfterRecv = FALSE
   AcceptErrors = 0
 PROPERTIES EventuallySettled
